@@ -1,3 +1,7 @@
 //! jxlw — independent reference writer / reference semantics for JPEG XL (no code shared with /repo).
 pub mod bits;
 pub mod container;
+pub mod entropy;
+pub mod headers;
+pub mod modular;
+pub mod frame;
